@@ -29,7 +29,7 @@ using namespace vc;
 extern "C" const char *__asan_default_options()
 {
   return "detect_leaks=0:exitcode=77:allocator_may_return_null=0:max_allocation_size_mb=1024:"
-         "malloc_context_size=6:handle_abort=0:detect_stack_use_after_return=0:quarantine_size_mb=8:symbolize=0";
+         "malloc_context_size=6:handle_abort=1:detect_stack_use_after_return=0:quarantine_size_mb=8:symbolize=0";
 }
 extern "C" const char *__ubsan_default_options() { return "print_stacktrace=1:exitcode=77:symbolize=0"; }
 
@@ -522,7 +522,11 @@ static void classify(Outcome &o, int st, bool timed_out, bool rss_killed)
   std::string ub = after("runtime error: ");
   std::string as = after("SUMMARY: AddressSanitizer: ");
   if (as.empty()) as = after("ERROR: AddressSanitizer: ");
-  if (ub.size()) {
+  std::string exc = after("terminate called after throwing an instance of '");
+  if (exc.size()) {
+    // uncaught C++ exception (std::length_error, std::bad_alloc ...): abort(); ASan prints the stack
+    o.kind = "abort:" + exc.substr(0, exc.find('\''));
+  } else if (ub.size()) {
     std::string s = slug(ub);
     // integer division by zero is the only division UBSan's default set reports: SIGFPE on x86 without it
     o.kind = (s == "division-by-zero") ? "SIGFPE" : "ubsan:" + s;
@@ -530,6 +534,7 @@ static void classify(Outcome &o, int st, bool timed_out, bool rss_killed)
     std::string k = as.substr(0, as.find_first_of(" \n"));
     if (k == "FPE") o.kind = "SIGFPE";
     else if (k == "SEGV") o.kind = "SIGSEGV";
+    else if (k == "ABRT") o.kind = "SIGABRT";
     else o.kind = "asan:" + k;
   } else if (WIFSIGNALED(st)) {
     int sg = WTERMSIG(st);
@@ -1250,6 +1255,14 @@ static void group_findings(Result &total)
   struct G { long count = 0; std::map<std::string, long> labels; };
   std::map<std::string, G> groups;
   std::map<std::string, std::string> key_of_raw;
+  std::set<std::string> singles;  // "kind@objecttype:keyword" of single-keyword cases
+  for (auto const &kv : total.viol_count) {
+    std::string raw = kv.first;
+    size_t a = raw.find(SEP), b = raw.find(SEP, a + 4);
+    if (a == std::string::npos || b == std::string::npos) continue;
+    std::string label = raw.substr(0, a), kind = raw.substr(a + 4, b - a - 4);
+    if (label.find('+') == std::string::npos) singles.insert(kind + "@" + label.substr(0, label.find('=')));
+  }
   for (auto const &kv : total.viol_count) {
     std::string raw = kv.first;
     size_t a = raw.find(SEP), b = raw.find(SEP, a + 4);
@@ -1261,8 +1274,37 @@ static void group_findings(Result &total)
       key = kind + "@";  // one mechanism whatever the rejected object
     else if (kind.rfind("seq:", 0) == 0)
       key = kind + "@" + label.substr(0, label.find(':'));  // per object type
-    else if (kind == "timeout" || kind == "rss-cap" || kind == "error-without-message" || kind.rfind("abort:", 0) == 0)
-      key = kind + "@" + label.substr(0, label.find('='));  // per object type and keyword
+    else if (kind == "timeout" || kind == "rss-cap" || kind.rfind("abort:", 0) == 0 || kind == "SIGABRT") {
+      // no crash site: per object type and keyword; a pair is attributed to the component that produces
+      // the same end on its own, if there is one
+      std::string comp = label.substr(0, label.find('='));
+      if (label.find('+') != std::string::npos) {
+        std::string best_comp;
+        size_t p0 = 0;
+        while (p0 <= label.size()) {
+          size_t p1 = label.find('+', p0);
+          std::string part = label.substr(p0, p1 == std::string::npos ? std::string::npos : p1 - p0);
+          std::string ck = part.substr(0, part.find('='));
+          if (singles.count(kind + "@" + ck)) { best_comp = ck; break; }
+          if (p1 == std::string::npos) break;
+          p0 = p1 + 1;
+        }
+        if (best_comp.size()) comp = best_comp;
+        else {
+          // both keywords are needed: key on the pair of keywords
+          comp.clear();
+          p0 = 0;
+          while (p0 <= label.size()) {
+            size_t p1 = label.find('+', p0);
+            std::string part = label.substr(p0, p1 == std::string::npos ? std::string::npos : p1 - p0);
+            comp += (comp.size() ? "+" : "") + part.substr(0, part.find('='));
+            if (p1 == std::string::npos) break;
+            p0 = p1 + 1;
+          }
+        }
+      }
+      key = kind + "@" + comp;
+    }
     else key = kind + "@?" + label.substr(0, label.find(':'));
     groups[key].count += kv.second;
     groups[key].labels[label] += kv.second;
@@ -1278,11 +1320,12 @@ static void group_findings(Result &total)
     std::string lf2;
     for (char ch : lfunc) if (ch != ' ') lf2 += ch;
     auto score = [&](std::string const &lab) {
-      // smaller is better: object type named by the crashing function first, then the simplest value class
+      // smaller is better: single mutations first, then the object type named by the crashing function,
+      // then the simplest value class (ties: alphabetical)
       std::string ctx = lower(lab.substr(0, lab.find(':')));
       bool named = ctx.size() > 2 && lf2.find(ctx) != std::string::npos;
-      bool generic = ctx == "colvar" || ctx == "module" || ctx == "atomgroup";
-      return (named ? 0 : generic ? 1000 : 2000) + vclass_rank(lab);
+      int pairs = (int) std::count(lab.begin(), lab.end(), '+');
+      return 100000 * pairs + (named ? 0 : 1000) + (vclass_rank(lab) % 100);
     };
     for (auto const &l : g.second.labels) {
       if (best.empty()) { best = l.first; continue; }
@@ -1767,6 +1810,9 @@ int main(int argc, char **argv)
           if (!seen.insert(key).second) continue;
           for (auto a : pv)
             for (auto b : pv) {
+              // 10^6 is paired with 0 only (a large size together with a zero divisor)
+              if ((std::string(a) == "1000000" && std::string(b) != "0") ||
+                  (std::string(b) == "1000000" && std::string(a) != "0")) continue;
               Case c;
               c.base = (int) bi;
               Mut m1 = sz[i], m2 = sz[j];
@@ -1806,6 +1852,10 @@ int main(int argc, char **argv)
     exhaustive = false;
     total.notes.push_back("C10_LIMIT set: development run on a subset");
   }
+  if (cases.size())
+    total.sample("{\"base\":\"" + jesc(BASES[cases[0].base].name) + "\",\"mutation\":\"" + jesc(case_label(cases[0])) +
+                 "\",\"operations\":\"parse; 4 steps; state to string; output files; end of run; destroy module\",\"config\":\"" +
+                 jesc(case_config(cases[0])) + "\"}");
   if (!run_cases(cases, "phase1", total)) return 2;
   double t1 = now();
   fprintf(stderr, "phase1: %zu cases in %.1fs\n", cases.size(), t1 - t_start);
